@@ -211,3 +211,12 @@ Proof.
   rewrite (nth_indep _ 0 ((fun i => a + inject_Z (Z.of_nat i) * s) O)) by (rewrite map_length, seq_length; lia).
   rewrite (map_nth (fun i => (a + inject_Z (Z.of_nat i) * s)%Q)). rewrite seq_nth by lia. reflexivity.
 Qed.
+
+(* --list-dates prints the calendar date and the clock time of each verified unix time *)
+Ltac Zify.zify_post_hook ::= Z.to_euclidean_division_equations.
+Lemma date_clock_spec (t : Z) : let '(dt, hh, mm, ss) := date_clock t in
+  (dt = unixtime_to_date t /\ 0 <= hh < 24 /\ 0 <= mm < 60 /\ 0 <= ss < 60 /\ t = day_start t + hh * 3600 + mm * 60 + ss)%Z.
+Proof.
+  unfold date_clock, day_start, day_of. cbv zeta.
+  split; [reflexivity|]. lia.
+Qed.
